@@ -3,7 +3,7 @@ import re
 from .. import common, roles, lemmas, eround
 from ..eround import RF, Translator, Unsupported, D18
 from ..roles import P_
-from ..mir import generic_path
+from ..mir import generic_path, proj
 
 BN = "bignumber::math::"
 U, DEC = BN + "Uint256", BN + "Decimal256"
@@ -534,6 +534,16 @@ def conversion_inventory(ctx, inst):
             continue
         v = exits[0][3]
         prm = ("param", g.path, 0)
+        if ("Decimal256" in dst) != ("Decimal" in src) and "Decimal256" in dst:
+            # integer -> fixed point: Decimal256(x.0 * DECIMAL_FRACTIONAL) with the aborting U256 multiplication — the value is
+            # preserved exactly or the call aborts (the same body S2 verifies for from_uint256)
+            inner = v[3][0][1] if v[0] == "agg" and len(v[3]) == 1 else None
+            good = (inner is not None and inner[0] == "call" and isinstance(inner[3], str) and re.search(r"<bigint::(\S*::)?U256 as (core|std)::ops::Mul>::mul$", generic_path(inner[3]))
+                    and len(inner[4]) == 2 and proj(prm, ("f", 0)) in (inner[4][0], inner[4][1])
+                    and any(set(ctx.roots(a_)) == {"I:bignumber::math::Decimal256::DECIMAL_FRACTIONAL"} for a_ in inner[4]))
+            if good:
+                inst.site("From<%s> for %s: raw * 10^18 by the aborting multiplication (exact or abort)" % (src.split("::")[-1], dst.split("::")[-1]))
+                continue
         # peel: struct wrapper Uint256{0: ..} / Decimal256{0: ..}, field .0, lossless wrappers
         inner_calls = []
         ok = True
